@@ -1007,6 +1007,13 @@ func (fr *Frame) evalCall(x *SCall, ctx *specCtx) SV {
 			}
 		}
 		fail("spec: at(): no loop %s", k.Val)
+	case "solid": // solid(v): interface value that is neither nil nor a nil pointer in an interface
+		a := arg(0)
+		if !isIface(a.T) {
+			return SV{Term: "(not (= " + a.Term + " 0))", K: svBool}
+		}
+		g.S.needSolid = true
+		return SV{Term: "(iface_solid " + a.Term + ")", K: svBool}
 	case "rematch": // rematch(re *regexp.Regexp, s string): the regular expression matches
 		g.needReMatch = true
 		return SV{Term: "(re_match " + arg(0).Term + " " + arg(1).Term + ")", K: svBool}
@@ -1102,7 +1109,7 @@ func (fr *Frame) evalCall(x *SCall, ctx *specCtx) SV {
 	}
 	name := g.declarePure(pf)
 	if g.pureHeap[pf.Pkg+"."+pf.Name] && ctx.st != nil && g.entry != nil {
-		if d := ctx.st.heap.dirty; d != "" && d != "false" {
+		if d := ctx.st.heap.dirtyFor(g.pureKeys[pf.Pkg+"."+pf.Name]); d != "" && d != "false" {
 			// the function is defined over the entry heap: its use here is only meaningful if the heap is unchanged
 			g.oblige("heapframe", pf.Name, ctx.st.path, not(d), "opaque specification function "+pf.Name+" is used where the heap must still equal the entry heap")
 		}
@@ -1111,9 +1118,22 @@ func (fr *Frame) evalCall(x *SCall, ctx *specCtx) SV {
 	for i := range x.Args {
 		args = append(args, g.coerce(arg(i), pf.Params[i].T, pf.Pkg))
 	}
+	if g.pureHeap[pf.Pkg+"."+pf.Name] && ctx.st != nil && g.entry != nil && g.noHoist == 0 && g.topFrame != nil {
+		// the function is defined over the entry heap: its pointer arguments must denote objects that existed at entry
+		top0 := g.entry.heap.get(g, g.topKey())
+		for i, p := range pf.Params {
+			if p.T.Kind == "ptr" {
+				g.oblige("heapframe", pf.Name+".arg", ctx.st.path, "(<= "+args[i]+" "+top0+")", "argument "+p.Name+" of the entry-heap specification function "+pf.Name+" must not be a freshly allocated object")
+			}
+		}
+	}
 	term := name
 	if len(args) > 0 {
 		term = "(" + name + " " + strings.Join(args, " ") + ")"
+	}
+	if pf.Body == nil && pf.Ret.Kind == "ptr" && g.noHoist == 0 && g.entry != nil {
+		// an uninterpreted accessor abstraction yields an object that existed at function entry
+		g.assume("(<= " + term + " " + g.entry.heap.get(g, g.topKey()) + ")")
 	}
 	return g.specSV(term, pf.Ret, pf.Pkg)
 }
@@ -1334,6 +1354,7 @@ func (g *Gen) declarePure(pf *PureFunc) string {
 		g.emit(fmt.Sprintf("(assert (forall (%s) (! (= %s %s)%s)))", strings.Join(binders, " "), app, body, pats))
 		if reHeapConst.MatchString(body) {
 			g.pureHeap[key] = true
+			g.recordPureKeys(key, body)
 			g.note("opaque specification function " + pf.Name + " is defined over the entry heap; each use carries a heap-unchanged obligation")
 		}
 		g.emitAxiomsFor(pf)
@@ -1351,6 +1372,7 @@ func (g *Gen) declarePure(pf *PureFunc) string {
 		g.emit(fmt.Sprintf("(assert (forall (%s) (! (= %s %s) :pattern (%s))))", strings.Join(binders, " "), app, body, app))
 		if reHeapConst.MatchString(body) {
 			g.pureHeap[key] = true
+			g.recordPureKeys(key, body)
 			g.note("recursive specification function " + pf.Name + " is defined over the entry heap")
 		}
 		g.emitAxiomsFor(pf)
@@ -1501,4 +1523,42 @@ func (g *Gen) emitAxiomsFor(pf *PureFunc) {
 		g.emit("(assert " + t + ")")
 		g.note("trusted axiom " + ax.Pkg + "." + ax.Name + ": " + ax.Text)
 	}
+}
+
+var reHeapName = regexp.MustCompile(`\bh\d+_[A-Za-z0-9_]+`)
+
+// recordPureKeys: which heap keys does the body of a specification function read (directly or through other
+// heap-reading specification functions)? A term that mentions a non-root heap value makes it depend on everything.
+func (g *Gen) recordPureKeys(key, body string) {
+	if g.pureKeys == nil {
+		g.pureKeys = map[string][]string{}
+	}
+	seen := map[string]bool{}
+	all := false
+	for _, n := range reHeapName.FindAllString(body, -1) {
+		if k, ok := g.constKey[n]; ok {
+			seen[k] = true
+		}
+	}
+	if regexp.MustCompile(`\bhm_\d+|\bhe_\d+|\bhf_\d+|\bhp_\d+|\blhp_\d+`).MatchString(body) {
+		all = true
+	}
+	// calls to other heap-reading functions
+	for other, ks := range g.pureKeys {
+		name := "sf_" + sanitize(strings.Replace(other, ".", "_", 1))
+		if strings.Contains(body, "("+name+" ") {
+			for _, k := range ks {
+				seen[k] = true
+			}
+		}
+	}
+	var ks []string
+	for k := range seen {
+		ks = append(ks, k)
+	}
+	if all {
+		ks = append(ks, "*all*")
+	}
+	sortStrings(ks)
+	g.pureKeys[key] = ks
 }
